@@ -1,0 +1,42 @@
+//go:build verif
+
+package slaac
+
+import (
+	"context"
+	"fmt"
+	"net"
+	"sync/atomic"
+
+	"golang.org/x/net/ipv6"
+)
+
+// VerifStart is Start with the receive loop left out: the same socket, the same multicast join, the same hop-limit
+// call, the same running flag, the same periodic sender goroutine. receiveLoop polls with one-second wall-clock read
+// deadlines and never blocks durably, which a testing/synctest bubble cannot host; a received Router Solicitation
+// is delivered with VerifRS instead. Nothing else differs from Start (add-only, verification builds only).
+func (s *Server) VerifStart(ctx context.Context) error {
+	conn, err := net.ListenPacket("ip6:ipv6-icmp", "::")
+	if err != nil {
+		return fmt.Errorf("failed to listen: %w", err)
+	}
+	p := ipv6.NewPacketConn(conn)
+	s.conn = p
+	allRouters := net.ParseIP("ff02::2")
+	if err := p.JoinGroup(&net.Interface{Index: s.ifaceIndex}, &net.IPAddr{IP: allRouters}); err != nil {
+		conn.Close()
+		return fmt.Errorf("failed to join multicast group: %w", err)
+	}
+	if err := p.SetHopLimit(255); err != nil {
+		return fmt.Errorf("failed to set hop limit: %w", err)
+	}
+	atomic.StoreInt32(&s.running, 1)
+	go s.sendPeriodicRAs(ctx)
+	return nil
+}
+
+// VerifRS is what receiveLoop does with a datagram whose first byte is ICMPv6RouterSolicitation.
+func (s *Server) VerifRS(src net.Addr) {
+	atomic.AddUint64(&s.rssRecv, 1)
+	s.handleRouterSolicitation(src)
+}
